@@ -176,15 +176,16 @@ def check_pins(ctx, libname, lib, pattern, ins, outs):
         if nm not in lib.cells:
             ctx.violation('name-expansion', f'{libname}: name {nm} (from {pattern}) has no entry in the library', case)
             continue
-        circ, pins = lib.cells[nm]
+        circ, pins = lib.cells[nm][0], lib.cells[nm][1]          # (implementation circuit, pin table) are the documented leading fields of an entry
         ctx.count('cells_pin_checked')
         if len(set(ins)) != len(ins) or len(set(outs)) != len(outs) or set(ins) & set(outs):
             ctx.violation('pin-table', f'{libname}.{nm}: a pin is declared twice: inputs {ins}, outputs {outs}', case)
             continue
         exp = {n: (k, False) for k, n in enumerate(ins)}
         exp.update({n: (k, True) for k, n in enumerate(outs)})
-        if dict(pins) != exp:
-            ctx.violation('pin-table', f'{libname}.{nm}: pin table {dict(pins)} differs from the declaration order inputs {ins} outputs {outs}', case)
+        got_pins = {n_: (v_[0], bool(v_[1])) for n_, v_ in dict(pins).items()}
+        if got_pins != exp:
+            ctx.violation('pin-table', f'{libname}.{nm}: pin table {got_pins} differs from the declaration order inputs {ins} outputs {outs}', case)
             continue
         impl_in = [n.name for n in circ.io_nodes if len(n.ins) == 0]
         impl_out = [n.name for n in circ.io_nodes if len(n.ins) > 0]
@@ -197,7 +198,7 @@ def check_function(ctx, libname, lib, nm, ins, outs):
     from kyupy.circuit import Circuit, Node, Line
     from kyupy.logic_sim import LogicSim
     case = {'lib': libname, 'cell': nm}
-    circ, pins = lib.cells[nm]
+    circ, pins = lib.cells[nm][0], lib.cells[nm][1]
     if any('dff' in n.kind.lower() or 'latch' in n.kind.lower() for n in circ.nodes):
         ctx.count('skipped/sequential')
         return
